@@ -375,6 +375,6 @@ def rustDfsOrder (es : List WEdge) : Nat → List Nat → List Nat → List Nat
       rustDfsOrder es fuel (push ++ stack) (u :: out)
 
 def rustDfs (n : Nat) (es : List WEdge) (s : Nat) : List Nat :=
-  rustDfsOrder es (es.length + n + 1) [s] []
+  rustDfsOrder es (n * es.length + 1) [s] []
 
 end Solvor.Backend
